@@ -281,4 +281,314 @@ def OwnInv (o : Own) : Prop :=
 theorem OwnInv_init : OwnInv {} := by
   simp [OwnInv]
 
+/-! ### the system invariant; Escape-key accounting -/
+
+open VaxisModel.Lemmas.Parser in
+/-- Only ESC starts the timer. -/
+theorem startsTimer_hand (r : Nat) : startsTimer handTable r = decide (r = 0x1B) := by
+  have := row_forall handAnywhere
+    (fun row => True) (by decide) (fun _ _ => trivial) r
+  clear this
+  by_cases hr : r = 0x1B
+  · subst hr; decide
+  · have h1 : decide (r = 0x1B) = false := by simp [hr]
+    rw [h1]
+    by_cases h18 : r = 0x18
+    · subst h18; decide
+    · by_cases h1a : r = 0x1A
+      · subst h1a; decide
+      · simp [startsTimer, handTable, anywhere_plain r h18 h1a hr]
+
+/-- While the loop runs: the automaton invariant holds and the timer is only pending in `escape`. -/
+def SInv (s : Sys) : Prop :=
+  s.pc ≠ .done → (invB (α s.ps) = true ∧ (s.armed = true → s.ps.state = .escape))
+
+theorem SInv_init : SInv Sys.init := by
+  intro _; exact ⟨by decide, by simp [Sys.init]⟩
+
+theorem pstep_esc_state (ps : PState) : (pstep ps (.rune 0x1B)).st.state = .escape := by
+  cases he : ps.exit with
+  | none => rw [VaxisModel.Lemmas.Parser.pstep_esc ps he]
+  | some f => rw [VaxisModel.Lemmas.Parser.pstep_esc_exit ps f he]
+
+/-- A race-free step preserves the invariant and emits no panic item. -/
+theorem step_SInv (s : Sys) (l : Label) (hl : l.isRace = false) (s' : Sys) (o : List Seq)
+    (hinv : SInv s) (hstep : Sys.step handTable true s l = some (s', o)) :
+    SInv s' ∧ Seq.panic ∉ o := by
+  cases l with
+  | closeSig =>
+    simp only [Sys.step, Option.some.injEq, Prod.mk.injEq] at hstep
+    obtain ⟨rfl, rfl⟩ := hstep
+    exact ⟨hinv, by simp⟩
+  | enterRead =>
+    simp only [Sys.step] at hstep
+    split at hstep
+    · rename_i hc
+      simp only [Option.some.injEq, Prod.mk.injEq] at hstep
+      obtain ⟨rfl, rfl⟩ := hstep
+      exact ⟨fun _ => hinv (by rw [hc.1]; decide), by simp⟩
+    · cases hstep
+  | breakClose =>
+    simp only [Sys.step] at hstep
+    split at hstep
+    · simp only [Option.some.injEq, finishing, Prod.mk.injEq] at hstep
+      obtain ⟨rfl, rfl⟩ := hstep
+      exact ⟨fun h => absurd rfl h, by simp⟩
+    · cases hstep
+  | read r =>
+    simp only [Sys.step] at hstep
+    split at hstep
+    · rename_i hc
+      have hi := hinv (by rw [hc]; decide)
+      have hs := hand_inv_step s.ps hi.1 (.rune r)
+      have hstop : (VaxisModel.Model.Parser.step handTable s.ps (.rune r)).stop = false := by
+        have := hs.2.2; simpa [pstep, isEof] using this
+      simp only [hstop, Bool.false_eq_true, if_false, Option.some.injEq, Prod.mk.injEq] at hstep
+      obtain ⟨rfl, rfl⟩ := hstep
+      refine ⟨fun _ => ⟨hs.1 rfl, fun ha => ?_⟩, hs.2.1⟩
+      simp only [startsTimer_hand, decide_eq_true_eq] at ha
+      subst ha
+      exact pstep_esc_state s.ps
+    · cases hstep
+  | readEnd =>
+    simp only [Sys.step] at hstep
+    split at hstep
+    · rename_i hc
+      have hi := hinv (by rw [hc]; decide)
+      have hs := hand_inv_step s.ps hi.1 .eof
+      simp only [Option.some.injEq, finishing, Prod.mk.injEq] at hstep
+      obtain ⟨rfl, rfl⟩ := hstep
+      refine ⟨fun h => absurd rfl h, ?_⟩
+      have := hs.2.1
+      simp only [pstep] at this
+      simp [this]
+    · cases hstep
+  | timerFire =>
+    simp only [Sys.step] at hstep
+    split at hstep
+    · rename_i hc
+      have hi := hinv (by rw [hc.2]; decide)
+      simp only [Option.some.injEq, Prod.mk.injEq] at hstep
+      obtain ⟨rfl, rfl⟩ := hstep
+      refine ⟨fun _ => ⟨?_, by simp⟩, by simp⟩
+      have hesc := hi.2 hc.1
+      have hex := ((invB_spec _).mp hi.1).1
+      simp only [α, hesc] at hex
+      simp only [timerReset, α, invB, if_true]
+      rw [hex]
+      decide
+    · cases hstep
+  | raceFire r late => simp [Label.isRace] at hl
+
+theorem run_SInv (ls : List Label) (hl : ls.all (fun l => !l.isRace) = true) (s : Sys) (s' : Sys) (o : List Seq)
+    (hinv : SInv s) (hrun : Sys.run handTable true s ls = some (s', o)) : SInv s' ∧ Seq.panic ∉ o := by
+  induction ls generalizing s o with
+  | nil =>
+    simp only [Sys.run, Option.some.injEq, Prod.mk.injEq] at hrun
+    obtain ⟨rfl, rfl⟩ := hrun
+    exact ⟨hinv, by simp⟩
+  | cons l ls ih =>
+    simp only [List.all_cons, Bool.and_eq_true, Bool.not_eq_true'] at hl
+    simp only [Sys.run] at hrun
+    cases h1 : Sys.step handTable true s l with
+    | none => simp [h1] at hrun
+    | some r1 =>
+      obtain ⟨s1, o1⟩ := r1
+      simp only [h1] at hrun
+      cases h2 : Sys.run handTable true s1 ls with
+      | none => simp [h2] at hrun
+      | some r2 =>
+        obtain ⟨s2, o2⟩ := r2
+        simp only [h2, Option.some.injEq, Prod.mk.injEq] at hrun
+        obtain ⟨rfl, rfl⟩ := hrun
+        obtain ⟨g1, g2⟩ := step_SInv s l hl.1 s1 o1 hinv h1
+        obtain ⟨g3, g4⟩ := ih (by simpa using hl.2) s1 o2 g1 h2
+        exact ⟨g3, by simp [g2, g4]⟩
+
+/-- One race-free step emits the Escape key iff it is the timer firing (then exactly once). -/
+theorem step_esc_count (c : Bool) (s : Sys) (l : Label) (hl : l.isRace = false) (s' : Sys) (o : List Seq)
+    (hstep : Sys.step handTable c s l = some (s', o)) :
+    o.count (.c0 0x1B) = if l = .timerFire then 1 else 0 := by
+  have hne : ∀ i, (VaxisModel.Model.Parser.step handTable s.ps i).out.count (.c0 0x1B) = 0 := fun i =>
+    List.count_eq_zero.mpr (pstep_no_esc_key s.ps i)
+  cases l with
+  | closeSig =>
+    simp only [Sys.step, Option.some.injEq, Prod.mk.injEq] at hstep
+    obtain ⟨_, rfl⟩ := hstep; simp
+  | enterRead =>
+    simp only [Sys.step] at hstep
+    split at hstep
+    · simp only [Option.some.injEq, Prod.mk.injEq] at hstep
+      obtain ⟨_, rfl⟩ := hstep; simp
+    · cases hstep
+  | breakClose =>
+    simp only [Sys.step] at hstep
+    split at hstep
+    · simp only [Option.some.injEq, finishing, Prod.mk.injEq] at hstep
+      obtain ⟨_, rfl⟩ := hstep; simp
+    · cases hstep
+  | read r =>
+    simp only [Sys.step] at hstep
+    split at hstep
+    · split at hstep
+      · simp only [Option.some.injEq, finishing, Prod.mk.injEq] at hstep
+        obtain ⟨_, rfl⟩ := hstep
+        simp [List.count_append, hne]
+      · simp only [Option.some.injEq, Prod.mk.injEq] at hstep
+        obtain ⟨_, rfl⟩ := hstep
+        simp [hne]
+    · cases hstep
+  | readEnd =>
+    simp only [Sys.step] at hstep
+    split at hstep
+    · simp only [Option.some.injEq, finishing, Prod.mk.injEq] at hstep
+      obtain ⟨_, rfl⟩ := hstep
+      simp [List.count_append, hne]
+    · cases hstep
+  | timerFire =>
+    simp only [Sys.step] at hstep
+    split at hstep
+    · simp only [Option.some.injEq, Prod.mk.injEq] at hstep
+      obtain ⟨_, rfl⟩ := hstep; simp
+    · cases hstep
+  | raceFire r late => simp [Label.isRace] at hl
+
+theorem run_esc_count (c : Bool) (ls : List Label) (hl : ls.all (fun l => !l.isRace) = true) (s s' : Sys)
+    (o : List Seq) (hrun : Sys.run handTable c s ls = some (s', o)) :
+    o.count (.c0 0x1B) = ls.count .timerFire := by
+  induction ls generalizing s o with
+  | nil =>
+    simp only [Sys.run, Option.some.injEq, Prod.mk.injEq] at hrun
+    obtain ⟨_, rfl⟩ := hrun; simp
+  | cons l ls ih =>
+    simp only [List.all_cons, Bool.and_eq_true, Bool.not_eq_true'] at hl
+    simp only [Sys.run] at hrun
+    cases h1 : Sys.step handTable c s l with
+    | none => simp [h1] at hrun
+    | some r1 =>
+      obtain ⟨s1, o1⟩ := r1
+      simp only [h1] at hrun
+      cases h2 : Sys.run handTable c s1 ls with
+      | none => simp [h2] at hrun
+      | some r2 =>
+        obtain ⟨s2, o2⟩ := r2
+        simp only [h2, Option.some.injEq, Prod.mk.injEq] at hrun
+        obtain ⟨rfl, rfl⟩ := hrun
+        rw [List.count_append, step_esc_count c s l hl.1 s1 o1 h1, ih (by simpa using hl.2) s1 o2 h2,
+          List.count_cons]
+        by_cases h : l = .timerFire <;> simp [h, Nat.add_comm]
+
+/-! ### pools: the ownership invariant is preserved, writes never hit a delivered array -/
+
+theorem own_step_inv (o : Own) (l : OwnLabel) (o' : Own) (w : Option Nat) (hinv : OwnInv o)
+    (hstep : Own.step o l = some (o', w)) : OwnInv o' ∧ (∀ b, w = some b → b ∉ o'.held) := by
+  obtain ⟨h1, h2, h3, h4, h5⟩ := hinv
+  cases l with
+  | collect realloc =>
+    simp only [Own.step] at hstep
+    split at hstep
+    · rename_i b hcur
+      simp only [Option.some.injEq, Prod.mk.injEq] at hstep
+      obtain ⟨rfl, rfl⟩ := hstep
+      exact ⟨⟨h1, h2, h3, h4, h5⟩, fun b' hb' => by cases hb'; exact (h1 b hcur).1⟩
+    · simp only [Option.some.injEq, Prod.mk.injEq] at hstep
+      obtain ⟨rfl, rfl⟩ := hstep
+      have hfresh1 : o.next ∉ o.held := fun h => Nat.lt_irrefl _ (h3 _ h)
+      have hfresh2 : o.next ∉ o.pool := fun h => Nat.lt_irrefl _ (h2 _ h).2
+      refine ⟨⟨?_, ?_, ?_, h4, h5⟩, fun b' hb' => by cases hb'; exact hfresh1⟩
+      · intro b hb; cases hb; exact ⟨hfresh1, hfresh2, Nat.lt_succ_self _⟩
+      · intro b hb; exact ⟨(h2 b hb).1, Nat.lt_succ_of_lt (h2 b hb).2⟩
+      · intro b hb; exact Nat.lt_succ_of_lt (h3 b hb)
+  | clear =>
+    simp only [Own.step, Option.some.injEq, Prod.mk.injEq] at hstep
+    obtain ⟨rfl, rfl⟩ := hstep
+    exact ⟨⟨h1, h2, h3, h4, h5⟩, fun b hb => by cases hb⟩
+  | dispatch g =>
+    simp only [Own.step] at hstep
+    split at hstep
+    · cases hstep
+    · rename_i b hcur
+      have hb := h1 b hcur
+      split at hstep
+      · rename_i g
+        split at hstep
+        · rename_i hgm
+          simp only [Option.some.injEq, Prod.mk.injEq] at hstep
+          obtain ⟨rfl, rfl⟩ := hstep
+          have hgp := h2 g hgm
+          have hne : g ≠ b := fun h => hb.2.1 (h ▸ hgm)
+          have hsub : ∀ x ∈ o.pool.erase g, x ∈ o.pool := fun x hx => List.mem_of_mem_erase hx
+          have hgnot : g ∉ o.pool.erase g := fun h => ((List.Nodup.mem_erase_iff h4).mp h).1 rfl
+          refine ⟨⟨?_, ?_, ?_, ?_, ?_⟩, fun _ h => by cases h⟩
+          · intro x hx; cases hx
+            exact ⟨by simp [hne, hgp.1], hgnot, hgp.2⟩
+          · intro x hx
+            have hxm := hsub x hx
+            refine ⟨?_, (h2 x hxm).2⟩
+            simp only [List.mem_cons, not_or]
+            exact ⟨fun h => hb.2.1 (h ▸ hxm), (h2 x hxm).1⟩
+          · intro x hx
+            simp only [List.mem_cons] at hx
+            rcases hx with rfl | hx
+            · exact hb.2.2
+            · exact h3 x hx
+          · exact List.Nodup.erase g h4
+          · exact List.nodup_cons.mpr ⟨hb.1, h5⟩
+        · cases hstep
+      · simp only [Option.some.injEq, Prod.mk.injEq] at hstep
+        obtain ⟨rfl, rfl⟩ := hstep
+        have hfresh1 : o.next ∉ o.held := fun h => Nat.lt_irrefl _ (h3 _ h)
+        have hfresh2 : o.next ∉ o.pool := fun h => Nat.lt_irrefl _ (h2 _ h).2
+        refine ⟨⟨?_, ?_, ?_, h4, ?_⟩, fun _ h => by cases h⟩
+        · intro x hx; cases hx
+          refine ⟨?_, hfresh2, Nat.lt_succ_self _⟩
+          simp only [List.mem_cons, not_or]
+          exact ⟨fun h => Nat.lt_irrefl _ (h ▸ hb.2.2), hfresh1⟩
+        · intro x hx
+          refine ⟨?_, Nat.lt_succ_of_lt (h2 x hx).2⟩
+          simp only [List.mem_cons, not_or]
+          exact ⟨fun h => hb.2.1 (h ▸ hx), (h2 x hx).1⟩
+        · intro x hx
+          simp only [List.mem_cons] at hx
+          rcases hx with rfl | hx
+          · exact Nat.lt_succ_of_lt hb.2.2
+          · exact Nat.lt_succ_of_lt (h3 x hx)
+        · exact List.nodup_cons.mpr ⟨hb.1, h5⟩
+  | finish b =>
+    simp only [Own.step] at hstep
+    split at hstep
+    · rename_i hbh
+      simp only [Option.some.injEq, Prod.mk.injEq] at hstep
+      obtain ⟨rfl, rfl⟩ := hstep
+      have hsub : ∀ x ∈ o.held.erase b, x ∈ o.held := fun x hx => List.mem_of_mem_erase hx
+      have hbnot : b ∉ o.held.erase b := fun h => (List.Nodup.mem_erase_iff h5).mp h |>.1 rfl
+      refine ⟨⟨?_, ?_, ?_, ?_, ?_⟩, fun _ h => by cases h⟩
+      · intro x hx
+        have := h1 x hx
+        refine ⟨fun h => this.1 (hsub x h), ?_, this.2.2⟩
+        simp only [List.mem_cons, not_or]
+        exact ⟨fun h => this.1 (h ▸ hbh), this.2.1⟩
+      · intro x hx
+        simp only [List.mem_cons] at hx
+        rcases hx with rfl | hx
+        · exact ⟨hbnot, h3 x hbh⟩
+        · exact ⟨fun h => (h2 x hx).1 (hsub x h), (h2 x hx).2⟩
+      · intro x hx; exact h3 x (hsub x hx)
+      · exact List.nodup_cons.mpr ⟨fun h => (h2 b h).1 hbh, h4⟩
+      · exact List.Nodup.erase b h5
+    · cases hstep
+
+theorem run_OwnInv (ls : List OwnLabel) (o o' : Own) (hinv : OwnInv o) (h : Own.run o ls = some o') :
+    OwnInv o' := by
+  induction ls generalizing o with
+  | nil => simp only [Own.run, Option.some.injEq] at h; rw [← h]; exact hinv
+  | cons l ls ih =>
+    simp only [Own.run] at h
+    cases hs : Own.step o l with
+    | none => simp [hs] at h
+    | some r =>
+      obtain ⟨o1, w1⟩ := r
+      simp only [hs] at h
+      exact ih o1 (own_step_inv o l o1 w1 hinv hs).1 h
+
 end VaxisModel.Lemmas.ParserRun
